@@ -67,7 +67,7 @@ Definition to_jv (v : val) : jv :=
 Record rerr := RErr { e_code : bytes; e_msg : bytes; e_data : val }.
 Inductive gerr :=
 | GErr (e : option rerr)      (* dynamic type *Error; None = the nil pointer *)
-| GOther (msg : bytes).       (* any other error type, msg = Error() *)
+| GOther (msg : bytes).       (* any other error type, msg = errors.go errString(err): Error(), or "panic in Error method" if that panics *)
 Inductive pval :=
 | PVError (g : gerr)          (* panic(err) *)
 | PVStr (s : bytes)           (* panic("...") *)
